@@ -288,17 +288,24 @@ PARAM_FORMS = ["int %s", "char *%s", "char **%s", "int %s[3]", "int (*%s)(int, i
                "unsigned long %s", "void (*%s)(void)", "struct s_x *%s"]
 
 
-def params_case(n, r, proto, ftype):
+HEAD_SHAPES = ["int\tf(%s)", "int\tf(%s)", "char\t*f(%s)", "static int\tf(%s)", "t_x\t**f(%s)", "unsigned long\tf(%s)",
+               "int\t(*f(%s))(int)", "int\t(*f(%s))(int, int, int, int, int)", "void\t(*f(%s))(void)"]
+
+
+def params_case(n, r, proto, ftype, shape=None):
+    shape = shape or r.choice(HEAD_SHAPES)
+    if proto and shape.startswith("static") and ftype == "h":
+        shape = "int\tf(%s)"
     ps = []
     for k in range(n):
         form = r.choice(PARAM_FORMS if r.random() < 0.7 else PARAM_FORMS[:2])
         ps.append(form % chr(ord("a") + k))
-    head = "int\tf(%s)" % ", ".join(ps)
+    head = shape % ", ".join(ps)
     tries = 0
     while vis_width(head) > 79 and tries < 50:
         tries += 1
-        ps = [(r.choice(PARAM_FORMS[:2]) % chr(ord("a") + k)) for k in range(n)]
-        head = "int\tf(%s)" % ", ".join(ps)
+        ps = [(r.choice(["int %s", "char *%s"]) % chr(ord("a") + k)) for k in range(n)]
+        head = shape % ", ".join(ps)
     if vis_width(head) > 79:
         return None
     if ftype == "h":
@@ -356,9 +363,11 @@ def all_cases(spec):
             yield ("funcs", "file", n, {}, nm, src, heads)
         for n in range(1, 11):
             for proto, ft in ((False, "c"), (True, "c"), (True, "h")):
-                c = params_case(n, r, proto, ft)
-                if c:
-                    yield ("params", "proto_" + ft if proto else "definition", n, {}, c[0], c[1], c[2])
+                for shape in ([None] if rep else HEAD_SHAPES[1:]):
+                    c = params_case(n, r, proto, ft, shape)
+                    if c:
+                        sk = "plain" if shape is None else ("returns_function_pointer" if "(*f(" in shape else "plain")
+                        yield ("params", ("proto_" + ft if proto else "definition") + "/" + sk, n, {}, c[0], c[1], c[2])
         for n in range(2, 12):
             nm, src, dl = vars_case(n, r)
             yield ("vars", "function", n, {}, nm, src, dl)
